@@ -107,8 +107,8 @@ Print Assumptions C13_predecessors_reflect.
 (* Composition with C15 (Model/Paging.v): in every state the registry model reaches from
    the empty registry by any request sequence the manifest digests are distinct and
    non-empty, hence against a registry that PAGINATES the Referrers API in any legal way
-   (C15: any page split below the cap, any Link rendering that resolves, filtering announced
-   or not) the client's page loop delivers, concatenated, exactly the stored manifests with
+   (C15: any page split below the cap, last= or opaque-token cursors, any Link rendering that
+   resolves, filtering announced or not, entries held back by the registry's visibility filter) the client's page loop delivers, concatenated, exactly the stored manifests with
    the given subject (of the requested artifact type): Predecessors = concat of the pages. *)
 Theorem C13_registry_digests_distinct :
   forall (H : str -> str) (sj : str -> option desc) (main other : str) (p : profile),
@@ -120,35 +120,38 @@ Print Assumptions C13_registry_digests_distinct.
 Theorem C13_referrers_paged :
   forall (sj : str -> option desc) (atype : str -> str) g dg (cap : nat) (ds : nat -> P.decision)
          (render : nat -> P.url -> P.url -> str) (trailer : nat -> str)
-         (resolve : P.url -> str -> option P.url) (c : P.cfg) (path : str) (fuel : nat),
+         (resolve : P.url -> str -> option P.url) (c : P.cfg)
+         (cu : P.cursor) (npath : nat -> str -> str) (vis : P.item -> bool) (path : str) (fuel : nat),
     keys_ok g ->
+    PP.cursor_ok cu ->
     P.c_kind c = P.KReferrers ->
     (forall i base x, In x (map fst (ref_items sj atype g dg)) ->
-       contains P.c_gt (render i base (PP.link_target (ds i) base x)) = false) ->
+       contains P.c_gt (render i base (PP.link_target ds cu npath i base x)) = false) ->
     (forall i base x, In x (map fst (ref_items sj atype g dg)) ->
-       resolve base (render i base (PP.link_target (ds i) base x)) = Some (PP.link_target (ds i) base x)) ->
+       resolve base (render i base (PP.link_target ds cu npath i base x)) = Some (PP.link_target ds cu npath i base x)) ->
     (forall i, (Z.of_N (P.d_doc_len (ds i)) <= P.eff_limit (P.c_limit c))%Z) ->
     (forall i, P.qget P.k_at (P.d_extra (ds i)) = None) ->
     (length (ref_items sj atype g dg) < fuel)%nat ->
-    let t := P.loop (P.reg_serve P.KReferrers (ref_items sj atype g dg) cap ds render trailer) resolve
+    let t := P.loop (P.reg_serve P.KReferrers cu npath vis (ref_items sj atype g dg) cap ds render trailer) resolve
                     (fun _ => false) c fuel 0 0 (P.mkUrl path (PP.referrers_query (P.c_at c))) [] in
     P.t_out t = P.Done /\
-    concat (P.t_pages t) = P.filter_referrers (ref_items sj atype g dg) (P.c_at c) /\
+    concat (P.t_pages t) = P.filter_referrers (filter vis (ref_items sj atype g dg)) (P.c_at c) /\
     (length (P.t_reqs t) <= S (length (ref_items sj atype g dg)))%nat.
 Proof. exact referrers_paged. Qed.
 Print Assumptions C13_referrers_paged.
 
 Theorem C13_predecessors_paged :
-  forall (sj : str -> option desc) (atype : str -> str) g dg cap ds render trailer resolve c path fuel,
-    keys_ok g -> P.c_kind c = P.KReferrers -> P.c_at c = [] ->
+  forall (sj : str -> option desc) (atype : str -> str) g dg cap ds render trailer resolve c cu npath vis path fuel,
+    keys_ok g -> PP.cursor_ok cu -> P.c_kind c = P.KReferrers -> P.c_at c = [] ->
+    (forall it, vis it = true) ->
     (forall i base x, In x (map fst (ref_items sj atype g dg)) ->
-       contains P.c_gt (render i base (PP.link_target (ds i) base x)) = false) ->
+       contains P.c_gt (render i base (PP.link_target ds cu npath i base x)) = false) ->
     (forall i base x, In x (map fst (ref_items sj atype g dg)) ->
-       resolve base (render i base (PP.link_target (ds i) base x)) = Some (PP.link_target (ds i) base x)) ->
+       resolve base (render i base (PP.link_target ds cu npath i base x)) = Some (PP.link_target ds cu npath i base x)) ->
     (forall i, (Z.of_N (P.d_doc_len (ds i)) <= P.eff_limit (P.c_limit c))%Z) ->
     (forall i, P.qget P.k_at (P.d_extra (ds i)) = None) ->
     (length (ref_items sj atype g dg) < fuel)%nat ->
-    let t := P.loop (P.reg_serve P.KReferrers (ref_items sj atype g dg) cap ds render trailer) resolve
+    let t := P.loop (P.reg_serve P.KReferrers cu npath vis (ref_items sj atype g dg) cap ds render trailer) resolve
                     (fun _ => false) c fuel 0 0 (P.mkUrl path []) [] in
     P.t_out t = P.Done /\
     map fst (concat (P.t_pages t)) = map d_dg (referrers_of sj g dg).
